@@ -8,7 +8,7 @@ Definition exp_qcreate : list (string * list string) := [("QLinear", ["module.in
 Definition exp_qweight_call : list string := ["self.weight"; "qtype=self.weight_qtype"; "axis=0"; "group_size=self.weight_group_size"; "optimizer=self.optimizer"].
 Definition exp_qweight_early : list string := ["self.weight_qtype is None -> return None"; "isinstance(self.weight, QTensor) -> return self.weight"].
 Definition exp_freeze_body : list string := ["qweight = self.qweight"; "if qweight is not None:
-    self.weight = torch.nn.Parameter(qweight)"].
+    self.weight = torch.nn.Parameter(qweight, requires_grad=False)"].
 Definition exp_quantize_module : string := "59a4a6c554acd773".
 Definition exp_quantize_loop : list string := ["list(model.named_modules(remove_duplicate=False))"; "if modules is not None and m not in modules:"; "if m in qmodules:"; "qmodule = quantize_module(m, **kwargs)"; "if qmodule is not None:"].
 Definition exp_mod_prints : list (string * string) := [
@@ -20,10 +20,10 @@ Definition exp_mod_prints : list (string * string) := [
   ("QModuleMixin.forward", "e5d7e41419d87137");
   ("QModuleMixin.from_module", "059224bb43d933b3");
   ("QModuleMixin.qweight", "33719e3f9683cdee");
-  ("QModuleMixin.freeze", "40281660ccdf703e");
+  ("QModuleMixin.freeze", "b51772aefbf7c808");
   ("QModuleMixin.frozen", "64231379173d0229");
   ("QModuleMixin._save_to_state_dict", "7d403032e904c165");
-  ("QModuleMixin._load_from_state_dict", "9bac238ec67b0a05");
+  ("QModuleMixin._load_from_state_dict", "292173ce789c4a79");
   ("register_qmodule", "59baa70174e2857d");
   ("quantize_module", "59a4a6c554acd773");
   ("QLinear.qcreate", "072972e8ada9d250");
